@@ -171,7 +171,8 @@ Definition check_case (c : case) : N :=
                            (Watch.trace tobs real_build (Watch.w_init tobs []) evs)) in
       let spec := list_eqb (opt_eqb tobs_eqb) impl exp
                   && forallb (fun c => match c with (_, _, o) => not_panic o end) cands in
-      verdict_lazy same spec (existsb (fun c => match c with (_, _, Err _) => true | _ => false end) cands)
+      verdict_lazy same spec (existsb (fun c => match c with (_, _, Err _) => true | _ => false end) cands
+                              || Nat.leb 2 (length (filter (fun c => match c with (_, _, Ok _) => true | _ => false end) cands)))
         (fun _ => None)
   | CSched e texts sched impl =>
       let tables := map (fun t => match fb e t with Ok bt => Some bt | _ => None end) texts in
